@@ -34,6 +34,14 @@ theorem generateCode_congr_models (c : RenderCfg) (o : RenderOracles) {g₁ g₂
   unfold generateCode
   simp only [renderLevel_congr_models c o h, find?_congr h, h]
 
+/-- render with the flat layout: `generate_code(compose_models_flat(models_map), …)` -/
+def renderFlat (c : RenderCfg) (o : RenderOracles) (g : Graph) (pre : Option String) : Except PyErr (String × NameMap) :=
+  composeFlat g >>= fun l => generateCode c o g (l.map (fun i => Node.mk i [])) [] pre
+
+/-- render with the nested layout: `generate_code(compose_models(models_map), …)` -/
+def renderNested (c : RenderCfg) (o : RenderOracles) (g : Graph) (pre : Option String) : Except PyErr (String × NameMap) :=
+  composeNested g >>= fun r => generateCode c o g r.1 r.2 pre
+
 /-! ## 2. name maps -/
 
 /-- the class name currently recorded for index `i` (`RefEnv.name?`, and the expression used by `convertNameAt` and
